@@ -87,6 +87,20 @@ def _k_body(case, res):
       except threads.ThreadTerminationError:
         s.log('tte-in-body', self)
         raise
+      if case.get('raises') and self._cosched_name == 'tgt':
+        raise RuntimeError('the body ends with an ordinary exception')
+
+    def _thread_exception(self, *args):
+      # "called if _thread_proc raises": part of what runs after the body; a kill arriving here has no effect
+      s = sched.SCHED
+      try:
+        s.yield_point('handler')
+        s.log('hstep', self)
+        s.yield_point('handler')
+        s.log('hstep', self)
+      except threads.ThreadTerminationError:
+        s.log('tte-in-handlers', self)
+      return True
 
     def _thread_finished(self):
       s = sched.SCHED
@@ -328,6 +342,7 @@ def _run_a(case):
         marks.append('swallowed')
     test.measurements.late = 99
     test.measurements.m = 7
+    test.attach('late_attachment', b'from A')
     test.logger.info('late message from A')
     marks.append('a-finished')
     return htf.PhaseResult.CONTINUE
@@ -369,6 +384,8 @@ def _run_a(case):
       facts.append('X:late-write-of-abandoned-body-attributed-to-another-phase-record')
     if 'late' in b.measurements:
       facts.append('X:late-measurement-in-another-phase-record')
+    if 'late_attachment' in b.attachments:
+      facts.append('X:late-attachment-of-abandoned-body-in-another-phase-record')
   if 'b-finished' not in marks:
     facts.append('X:teardown-phase-did-not-run-to-completion')
   return {'facts': facts, 'marks': marks}
@@ -434,7 +451,8 @@ def gen_cases(rng, tier):
     r = rng.derive('k%d' % i)
     c = r.choice([0, 1, 2, 3])
     cases.append(dict(base, before=r.choice([0, 0, 1]), concurrent=c, early=r.randrange(c + 1), after=r.choice([0, 1]),
-                      steps=r.choice([0, 1, 2, 3]), rseed=r.getrandbits(32), switch=r.choice([0.3, 0.6, 0.9])))
+                      steps=r.choice([0, 1, 2, 3]), rseed=r.getrandbits(32), switch=r.choice([0.3, 0.6, 0.9]),
+                      raises=r.random() < 0.4))
   # J: durations around the deadline and every poll instant
   for timeout, interval in [(0, 4), (1, 4), (16, 4), (16, 5), (16, 16), (17, 4), (40, 16), (48, 48), (8, 32)]:
     ds = set([0, 1, timeout - 1, timeout, timeout + 1, timeout + interval - 1, timeout + interval, timeout + interval + 1, None])
